@@ -47,10 +47,14 @@ func template(rt *rapid.T) (Frame, []int) {
 		return []int{o, o + 2, o + 4, o + 7, o + 8, o + 11, o + 12, o + 13, o + 14, o + 15, o + 20, o + 21, o + 22, o + 23, o + 24, o + 25}
 	}
 	opts := func() []byte {
-		switch rapid.IntRange(0, 3).Draw(rt, "optsel") {
+		// (the live connection negotiated timestamps: a segment without the option stops at the
+		// RFC 7323 gate, so most segments aimed at it carry one)
+		switch rapid.IntRange(0, 5).Draw(rt, "optsel") {
 		case 0:
 			return nil
-		case 1:
+		case 4:
+			return append(append(append(codec.OptNOP(), codec.OptNOP()...), codec.OptTS(5, 0)...), append(append(codec.OptNOP(), codec.OptNOP()...), codec.OptSACK([][2]uint32{{uint32(rapid.IntRange(0, 700).Draw(rt, "sack-l")), uint32(rapid.IntRange(0, 700).Draw(rt, "sack-r"))}})...)...)
+		case 1, 5:
 			return append(append(codec.OptNOP(), codec.OptNOP()...), codec.OptTS(5, 0)...)
 		case 2:
 			return append(append(codec.OptNOP(), codec.OptNOP()...), codec.OptSACK([][2]uint32{{100, 200}, {300, 400}})...)
@@ -182,10 +186,32 @@ func genFrame(rt *rapid.T) Frame {
 	return f
 }
 
+// genHoles: a run of valid out-of-order data segments of the live connection
+// (SACK negotiated), each leaving a separate hole in front of it: the
+// receiver's reassembly queue and its SACK block list grow with every one of
+// them (more holes than a SACK option or the block array can hold).
+func genHoles(rt *rapid.T) []Frame {
+	n := rapid.IntRange(2, 14).Draw(rt, "nholes")
+	space := rapid.SampledFrom([]int{2, 2, 300, 3000}).Draw(rt, "hole-spacing")
+	ks := rapid.Permutation([]int{1, 2, 3, 4, 5, 6, 7, 8, 9, 10, 11, 12, 13, 14}).Draw(rt, "hole-order")[:n]
+	var out []Frame
+	for _, k := range ks {
+		pl := make([]byte, 1+rapid.IntRange(0, space-2).Draw(rt, "hole-len"))
+		s := codec.TCPSeg{SrcPort: 50000, DstPort: portListen, Seq: uint32(k * space), Flags: codec.ACK | codec.PSH, Wnd: 65535, Opts: append(append(codec.OptNOP(), codec.OptNOP()...), codec.OptTS(5, 0)...), Payload: pl}
+		p := codec.BuildIPv4(codec.IPv4Hdr{Src: b4, Dst: a4, Proto: codec.ProtoTCP}, codec.BuildTCP(b4, a4, s))
+		out = append(out, Frame{P: codec.EtherIPv4, B: hex.EncodeToString(p), Rel: true, K: "tcp-holes"})
+	}
+	return out
+}
+
 func genCase(rt *rapid.T) Case {
 	n := rapid.IntRange(1, 40).Draw(rt, "nframes")
 	var c Case
 	for i := 0; i < n; i++ {
+		if rapid.IntRange(0, 9).Draw(rt, "holes") == 1 {
+			c.Frames = append(c.Frames, genHoles(rt)...)
+			continue
+		}
 		c.Frames = append(c.Frames, genFrame(rt))
 	}
 	c.SmallBuf = evid.Hash64("smallbuf", fmt.Sprintf("%v", c.Frames))%4 == 0
